@@ -1328,6 +1328,7 @@ class Normalizer:
             body = self.canon_calls(body, fi)
             body = canon_block(body)
             body = lift_ifexp(body)
+            body = canon_block(body)        # (a, b = (x, y) produced by a lifted conditional tuple)
             if not body:
                 body = [at(ast.Pass(), fi.node)]
             fi.node.body = doc + body
